@@ -390,9 +390,35 @@ func (c *c3xCluster) PutGrain(ctx context.Context, grain *internalpb.Grain) erro
 	return nil
 }
 
+// c3xRemoveCaller names the goakt code path that issued a RemoveGrain (used only to word the
+// signature of a violation by its root cause).
+func c3xRemoveCaller() string {
+	var pcs [12]uintptr
+	n := runtime.Callers(3, pcs[:])
+	frames := runtime.CallersFrames(pcs[:n])
+	for {
+		f, more := frames.Next()
+		switch {
+		case strings.HasSuffix(f.Function, ".(*grainPID).deactivate"):
+			return "deactivation"
+		case strings.HasSuffix(f.Function, ".tryRemoteGrainActivation"):
+			return "remote-activation-fallback"
+		case strings.HasSuffix(f.Function, ".tryPeerActivation"):
+			return "peer-activation-rollback"
+		case strings.Contains(f.Function, ".finalizeGrainActivation"), strings.Contains(f.Function, ".activateGrainLocally"),
+			strings.Contains(f.Function, ".ensureExistingGrainProcess"), strings.Contains(f.Function, ".ensureNewGrainProcess"):
+			return "activation-rollback"
+		}
+		if !more {
+			return "other-path"
+		}
+	}
+}
+
 func (c *c3xCluster) RemoveGrain(ctx context.Context, identity string) error {
 	w := c.w
 	op := c3xOp(ctx)
+	via := c3xRemoveCaller()
 	k := w.wait(ctx, c.node, "RemoveGrain")
 	w.mu.Lock()
 	defer w.mu.Unlock()
@@ -402,7 +428,7 @@ func (c *c3xCluster) RemoveGrain(ctx context.Context, identity string) error {
 	}
 	prev := w.ownerName(w.grains[identity])
 	delete(w.grains, identity)
-	w.noteLocked(c.node, op, "RemoveGrain", "ok:"+prev)
+	w.noteLocked(c.node, op, "RemoveGrain", "ok:"+prev+":"+via)
 	return nil
 }
 
